@@ -95,6 +95,78 @@ META = {
         detected_by={"C10": "second_call_after_inplace_mutation (deterministic); before strengthening only through a recycled id() (equals_reference_average)"},
         strengthening="new sub-oracle: attributes of the same StiffnessTensors instance and textures of the same Mineral objects are changed in place and the average recomputed",
     ),
+    "C11": dict(
+        summary="tensors.rotate gained an identity fast path: returns an unrotated copy when np.isclose(trace(rotation), 3.0); with the default "
+                "tolerances every rotation below ~0.31 degrees is treated as the identity",
+        needs="a genuine rotation by an angle in (0, 0.31 deg) applied to an anisotropic tensor (random SO(3) draws hit this with p ~ 1e-8)",
+        detected_before_strengthening=True,
+        detected_by={"C11": "rotate_law / rotate_group_action with the hostile 'tiny' rotations (1e-8 rad) of drive.hostile_rotation"},
+        strengthening=None,
+    ),
+    "C12": dict(
+        summary="elasticity_components pairs dilatational and deviatoric eigenvectors by index ('eigh sorts both ascending') instead of by nearest angle",
+        needs="a tensor whose two contractions rank the principal axes differently (~37 % of random positive-definite orthorhombic tensors; neither built-in crystal)",
+        detected_before_strengthening=True,
+        detected_by={"C12": "orthorhombic_mono_tric_vanish, orthorhombic_pythagoras, frame_independent_scalars on random orthorhombic tensors"},
+        strengthening=None,
+    ),
+    "C13": dict(
+        summary="finite_strain fast path: for an exactly symmetric F it eigen-decomposes F itself ('a symmetric F is its own left stretch')",
+        needs="an exactly symmetric, indefinite deformation gradient (symmetric stretch composed with a half-turn about its intermediate or short axis)",
+        detected_before_strengthening=True,
+        detected_by={"C13": "finite_strain_prior_rotation / finite_strain_subsequent_rotation / finite_strain_equals_svd (pure-shear F x signed-permutation and pi rotations)"},
+        strengthening=None,
+    ),
+    "C14": dict(
+        summary="misorientation_index memoises the theoretical random-misorientation counts with a cache key that omits the lattice system (only the bin edges)",
+        needs="two lattice systems with the same theta_max (triclinic/monoclinic, tetragonal/hexagonal) evaluated in the same process or pool worker",
+        detected_before_strengthening=True,
+        detected_by={"C14": "triclinic_equals_reference, uniform_near_zero (the relation shards evaluate several systems in one process)"},
+        strengthening=None,
+    ),
+    "C15": dict(
+        summary="resample_orientations drops 'grains without volume' from the whole stack with np.all(fractions > 0, axis=0) (np.any would be right)",
+        needs="a stack of >= 2 snapshots in which a grain is empty in one snapshot and holds volume in another",
+        detected_before_strengthening=True,
+        detected_by={"C15": "call_returns (IndexError when every grain is empty somewhere) before; law:per_grain_band and law:chi_square on multi-snapshot stacks now"},
+        strengthening="the sampling-law cases now use stacks of 1-3 snapshots with different zero patterns per snapshot",
+    ),
+    "C16": dict(
+        summary="save_scsv decides 'cell equals fill' for float/complex with np.isclose(d, fill, equal_nan=True) instead of exact comparison",
+        needs="a float/complex field with a finite fill and a cell within 1e-8 + 1e-5*|fill| of it but not equal (e.g. 5e-324 with fill 0.0)",
+        detected_before_strengthening=True,
+        detected_by={"C16": "file_fill_cells_are_missing_marker and roundtrip_values (subnormal cells under a zero fill)"},
+        strengthening="generator now emits near-fill neighbours (nextafter, +1e-9, *(1+1e-7)) for every finite float/complex fill and fill+-1 for integers",
+    ),
+    "C17": dict(
+        summary="load/from_file merged into a helper that takes the first archive member with name.startswith(field) and name.endswith('_' + postfix)",
+        needs="two postfixes where one is an underscore-delimited tail of the other (L5 / M0_X0_L5), the longer saved first, load requested by the shorter",
+        detected_before_strengthening=False,
+        detected_by={"C17": "from_file_restores_exactly / load_restores_exactly"},
+        strengthening="postfix pool now contains families whose members are tails / heads / substrings of each other",
+    ),
+    "C18": dict(
+        summary="pathlines._is_inside rewritten with np.any for the upper bounds (De Morgan slip): the flat out-of-plane coordinate always satisfies <= max, "
+                "so the max_coords faces of the box are never detected",
+        needs="a pathline that reaches an upper box face before the strain limit (left half of the ridge in corner flow, shear with z < 0 and a small box)",
+        detected_before_strengthening=True,
+        detected_by={"C18": "pathline_inside_box (boxes 'thin'/'offset' and all six axis pairs)"},
+        strengthening=None,
+    ),
+    "C19": dict(
+        summary="parse_config takes the default and the validity check of [output] diagnostics from the parsed raw_output selection instead of the phase assemblage",
+        needs="two simulated phases, raw_output a strict subset, diagnostics omitted or naming a simulated phase outside raw_output",
+        detected_before_strengthening=True,
+        detected_by={"C19": "config_defaults_and_values / config_parses (generated subsets of optional [output] keys)"},
+        strengthening=None,
+    ),
+    "C20": dict(
+        summary="to_spherical takes the colatitude modulo pi ('keep theta in [0, pi)'): theta == pi becomes 0",
+        needs="a point on (or within rounding of) the negative z axis",
+        detected_before_strengthening=True,
+        detected_by={"C20": "spherical_roundtrip / spherical_convention (both poles are in the hostile point set)"},
+        strengthening=None,
+    ),
 }
 
 
